@@ -164,12 +164,14 @@ Bucket_grow(Bucket *self, int newsize, int noval)
 
         UNLESS (noval)
         {
+            /* The keys may have been moved already:  self->keys must follow
+             * them even if the values cannot be resized (the key vector is
+             * then merely larger than self->size says).
+             */
+            self->keys = keys;
             values = BTree_Realloc(self->values, sizeof(VALUE_TYPE) * newsize);
             if (values == NULL)
-            {
-                free(keys);
                 return -1;
-            }
             self->values = values;
         }
         self->keys = keys;
@@ -1314,10 +1316,10 @@ _bucket_setstate(Bucket *self, PyObject *state)
         keys = BTree_Realloc(self->keys, sizeof(KEY_TYPE)*len);
         if (keys == NULL)
             return -1;
+        self->keys = keys;      /* they may have been moved */
         values = BTree_Realloc(self->values, sizeof(VALUE_TYPE)*len);
         if (values == NULL)
             return -1;
-        self->keys = keys;
         self->values = values;
         self->size = len;
     }
